@@ -85,7 +85,7 @@ func VerifC13TokenFetchFaults() {
 	f := &vfFaulty{inner: inner, failAt: vf.Int("fail-at", -1, maxOps), kind: vf.Int("error-kind", 0, 2)}
 	resp, err := FetchNodeCredentials(ctx, f, req)
 	vf.Assume(vf.TimeLE(vf.Now(), t0.Add(2*time.Second)))
-	vf.Assert("op-count-within-bound", f.n <= maxOps)
+	vf.Bound("op-count-within-bound", f.n <= maxOps)
 	issued := err == nil && resp != nil && len(resp.EncryptedNodeCredentials) > 0
 	records, tokens := inner.Count(vfs.KindNode), inner.Count(vfs.KindToken)
 	if f.hit {
